@@ -346,7 +346,7 @@ fn run(ctx: &mut Ctx) {
     }
     // deeply nested and wide metadata constants: nesting 3..120 (lists and maps alternating at random), lists of up to 3000 items, 40 items per rule
     for k in 0..ctx.tier.of(120, 1_200) {
-        let depth = 3 + (k % 118);
+        let depth = if k % 10 == 9 { 250 + (k * 37) % 650 } else { 3 + (k % 118) };
         let mut v = gen_const(&mut rng, 1);
         for level in 0..depth {
             v = if rng.chance(1, 2) { Value::Vec(if level % 5 == 0 { vec![Value::Int(level as i128), v] } else { vec![v] }) } else { Value::Map([(format!("k{}", level % 3), v)].into_iter().collect()) };
@@ -364,6 +364,30 @@ fn run(ctx: &mut Ctx) {
         }
         parts.push(Part::Code { text: "i1".into(), trailing_comment: None });
         judge(ctx, &parts, "i1", "\n", true, "deep-and-wide-metadata");
+    }
+    // characters that look like nothing but are not whitespace (BOM, zero-width space, soft hyphen, word joiner, NUL …) in front of the
+    // text, of a comment line, of a metadata item or of the expression: the grammar derives none of them, the text is not a rule
+    for (k, ch) in ["\u{feff}", "\u{200b}", "\u{ad}", "\u{2060}", "\u{0}", "\u{180e}", "\u{200e}", "\u{7f}", "\u{1}", "\u{fffe}"].into_iter().enumerate() {
+        if !ctx.mine() {
+            continue;
+        }
+        for (j, text) in [format!("{ch}// name\ni1"), format!("// name\n{ch}@k: i1;\ni1"), format!("// name\n@k: i1;\n{ch}i1"), format!("{ch}@name: \"n\";\ni1"), format!("// name\ni1{ch}"), format!("// name\n  {ch}  // second\ni1")].into_iter().enumerate() {
+            ctx.begin(|| format!("invisible\t{text:?}"));
+            ctx.count();
+            ctx.hit("family:invisible-non-whitespace-characters");
+            ctx.nontrivial(fnv(text.as_bytes()));
+            // the expression part with that character must itself be unparseable for the verdict to be forced
+            if Expr::parse(&format!("{ch}i1")).is_ok() || Expr::parse(&format!("i1{ch}")).is_ok() {
+                ctx.hit("invisible:character-is-accepted-by-the-expression-grammar");
+                continue;
+            }
+            match guard(|| Rule::parse(&text)) {
+                Err(p) => ctx.violation("C14 panic".to_string(), p, json!({"rule_text": text})),
+                Ok(Ok(r)) => ctx.violation(format!("C14 invalid-rule-accepted [invisible character U+{:04X} position {j}]", ch.chars().next().unwrap() as u32), format!("a text that the grammar does not derive was accepted as rule {:?}", r.name()), json!({"rule_text": text})),
+                Ok(Err(_)) => ctx.hit("outcome:invisible-character-rejected"),
+            }
+            let _ = k;
+        }
     }
     // random beyond: more comment lines and items
     let n = ctx.tier.of(10_000, 100_000);
